@@ -1163,7 +1163,7 @@ theorem runMethod_position (p : Program) (hp : pathsOK p = true) (m : Nat) (argV
     (h : runMethod p m argVals fuel = .err e) :
     ∃ gm, p.methods[m]? = some gm ∧
       ((∃ chain root, Fails p m (srcOf gm argVals) chain root ∧ e = build chain root) ∨
-       (∃ sp c rp tl root, gm.body = some (.update sp c) ∧ Leads p c (srcOf gm argVals) rp tl root ∧
+       (∃ sp c rp tl root, gm.body = some (.update sp c) ∧ Leads p c (updSource sp (srcOf gm argVals)) rp tl root ∧
           e = build ((methodMode gm, rp) :: tl) root)) := by
   unfold runMethod at h
   split at h
